@@ -132,6 +132,7 @@ pub struct Hanger {
 pub enum Mode {
     C02,
     C06,
+    C07,
     C15,
     C17,
     C19,
@@ -143,6 +144,7 @@ impl Mode {
     pub fn clauses(&self) -> &'static [&'static str] {
         match self {
             Mode::C02 => &["no-panic", "read-implies-written", "eof-only-at-final-size", "write-accounting", "unexpected-conn-error", "liveness-handshake", "liveness-transfer", "bounded-failure", "no-progress", "tampered-not-accepted", "no-duplicate-pn-accepted"],
+            Mode::C07 => &["no-panic", "pn-reuse", "pn-not-increasing"],
             Mode::C06 => &["no-panic", "roundtrip-frames", "corrupt-accepted", "replay-accepted", "liveness-handshake", "liveness-transfer", "unexpected-conn-error"],
             Mode::C15 => &["no-panic", "over-3x", "resume"],
             Mode::C17 => &["no-panic", "pending-not-released", "ok-after-close", "error-changed", "state-regressed", "data-after-close", "idle-early", "idle-late", "idle-disabled-fired", "close-not-terminated"],
@@ -357,6 +359,7 @@ impl Engine for NetSim {
         match self.mode {
             Mode::C02 => "netsim",
             Mode::C06 => "netsim-sweep",
+            Mode::C07 => "netsim-pn",
             Mode::C15 => "netsim-amplification",
             Mode::C17 => "netsim-close",
             Mode::C19 => "netsim-datagram",
@@ -383,7 +386,7 @@ impl Engine for NetSim {
     fn generate(&self, _index: u64, seed: u64, _tier: Tier) -> Case {
         let mut r = Rng::derive(seed, "cfg");
         let profile = match self.mode {
-            Mode::C02 => if r.one_in(4) { Profile::Unbounded } else { Profile::Bounded },
+            Mode::C02 | Mode::C07 => if r.one_in(4) { Profile::Unbounded } else { Profile::Bounded },
             Mode::C06 | Mode::C15 | Mode::C19 => Profile::Bounded,
             Mode::C20 => if r.one_in(4) { Profile::Unbounded } else { Profile::Bounded },
             Mode::C17 => if r.one_in(5) { Profile::Unbounded } else { Profile::Bounded },
@@ -424,7 +427,7 @@ impl Engine for NetSim {
         let mut client = client;
         let mut server = server;
         match self.mode {
-            Mode::C02 => {}
+            Mode::C02 | Mode::C07 => {}
             Mode::C20 => {
                 // lifetimes with handshake, transfer, loss, close at a drawn time or idle expiry, path loss
                 close = match f.below(4) {
